@@ -68,6 +68,7 @@ var apiTexts = map[string]string{
 	"patchArr":      `[{"op":"add","path":"/1/-","value":{"q":1}},{"op":"copy","from":"/0","path":"/-"},{"op":"test","path":"/2","value":"t"}]`,
 	"patchTst":      `[{"op":"add","path":"/w","value":1},{"op":"test","path":"/a/n","value":"no"}]`,
 	"patchNeg":      `[{"op":"add","path":"/1/-1","value":9},{"op":"remove","path":"/-1"}]`,
+	"patchWide":     `[{"op":"replace","path":"/k00","value":{"r":[1,2]}},{"op":"remove","path":"/k39"}]`,
 	"patchDeep":     `[{"op":"add","path":"/d/0/d/0/d/0/d/0/d/0/d/0/leaf/-","value":{"deeper":[{"x":[1]}]}}]`,
 	"patchBig":      `[{"op":"add","path":"/n","value":{"big":12345678901234567890123,"e":1e400,"f":1.0}},{"op":"move","from":"/n","path":"/m"},{"op":"test","path":"/m/f","value":1.0}]`,
 	"patchCopyFail": `[{"op":"copy","from":"/a/b","path":"/c1"},{"op":"test","path":"/k","value":"no"}]`,
@@ -108,6 +109,8 @@ func newAPIWorld() *apiWorld {
 	w.optSnap = *w.sharedOpt
 	w.sharedOptS = v5.NewApplyOptions()
 	w.sharedOptS.AccumulatedCopySizeLimit = 12
+	w.bufs["bigWide"] = []byte(strings.Replace(wide40(), `"k02":2.0`, `"k02":"`+strings.Repeat("w<", 700)+`"`, 1)) // about 2 KB compact
+	w.snaps["bigWide"] = string(w.bufs["bigWide"])
 	w.bufs["docDeep"] = []byte(deepDoc(12))
 	w.snaps["docDeep"] = string(w.bufs["docDeep"])
 	w.bufs["deepOpen"] = []byte(strings.Repeat("[", 2000))
@@ -243,13 +246,17 @@ func newAPIWorld() *apiWorld {
 		}},
 		{"Pneg.ApplyIndent(docArr)", true, func(w *apiWorld) ([]byte, error) { return w.patches["patchNeg"].ApplyIndent(B("docArr"), "\t") }},
 		{"Pneg.Apply(docArr)", true, func(w *apiWorld) ([]byte, error) { return w.patches["patchNeg"].Apply(B("docArr")) }},
+		{"PbigS.ApplyIndent(wideDoc) [result > 1 KiB]", true, func(w *apiWorld) ([]byte, error) { return w.patches["patchWide"].ApplyIndent(B("bigWide"), " ") }},
+		{"PbigS.ApplyIndentWithOptions(wideDoc, tab) [result > 1 KiB]", true, func(w *apiWorld) ([]byte, error) {
+			return w.patches["patchWide"].ApplyIndentWithOptions(B("bigWide"), "\t", opt())
+		}},
 		{"CreateMergePatch(bigA,bigB) [5 KB documents]", true, func(w *apiWorld) ([]byte, error) { return v5.CreateMergePatch(B("bigA"), B("bigB")) }},
 		{"CreateMergePatch(bigBad,bigB) [5 KB, first malformed]", true, func(w *apiWorld) ([]byte, error) { return v5.CreateMergePatch(B("bigBad"), B("bigB")) }},
 		{"legacy Lp.Apply(docObj)", false, func(w *apiWorld) ([]byte, error) { return w.lpatch.Apply(B("docObj")) }},
 		{"legacy MergePatch(docObj,mp1)", false, func(w *apiWorld) ([]byte, error) { return v4.MergePatch(B("docObj"), B("mp1")) }},
 	}
 	for i, c := range w.calls {
-		if !strings.Contains(c.Name, "docS") && !strings.Contains(c.Name, "patchS") && !strings.Contains(c.Name, "eqS1") && !strings.HasPrefix(c.Name, "Ps.") && !strings.HasPrefix(c.Name, "ProotS.") && !strings.HasPrefix(c.Name, "CreateMergePatch(big") {
+		if !strings.Contains(c.Name, "docS") && !strings.Contains(c.Name, "patchS") && !strings.Contains(c.Name, "eqS1") && !strings.HasPrefix(c.Name, "Ps.") && !strings.HasPrefix(c.Name, "ProotS.") && !strings.HasPrefix(c.Name, "CreateMergePatch(big") && !strings.HasPrefix(c.Name, "PbigS.") {
 			w.menu = append(w.menu, i)
 		}
 	}
@@ -319,7 +326,7 @@ func decodeOnly(b []byte) ([]byte, error) {
 }
 
 func (w *apiWorld) decodePatches() {
-	for _, k := range []string{"patchOK", "patchArr", "patchTst", "patchNeg", "patchCopyFail", "patchCopyBig", "patchBig", "patchDeep", "patchS", "patchTstS", "rootPatchS"} {
+	for _, k := range []string{"patchOK", "patchArr", "patchTst", "patchNeg", "patchCopyFail", "patchCopyBig", "patchBig", "patchDeep", "patchWide", "patchS", "patchTstS", "rootPatchS"} {
 		p, err := v5.DecodePatch([]byte(apiTexts[k])) // from a private copy: the Patch must not alias a shared buffer
 		if err != nil {
 			panic("harness patch " + k + ": " + err.Error())
